@@ -23,7 +23,9 @@ from collections import Counter
 from pathlib import Path
 
 ROOT = Path(__file__).resolve().parent.parent
-EVIDENCE_DIR = ROOT / 'evidence'
+# evidence committed under evidence/ must come from /repo itself: runs against a scratch copy
+# (VERIF_REPO, used for mutants and seeded changes) write theirs under scratch/ (git-ignored)
+EVIDENCE_DIR = ROOT / 'evidence' if not os.environ.get('VERIF_REPO') else ROOT / 'scratch' / 'evidence'
 REPLAY_DIR = ROOT / 'replays'
 KNOWN = ROOT / 'known_findings.json'
 SCHEMA = Path('/root/.vp/EVIDENCE.schema.json')
@@ -319,7 +321,7 @@ def finish(pid, mod, tier, seed, cov, violations, wall, confirm=True):
         'wall_s': round(wall, 3),
         'violations': sum(len(vs) for vs in new.values()),
     }
-    EVIDENCE_DIR.mkdir(exist_ok=True)
+    EVIDENCE_DIR.mkdir(parents=True, exist_ok=True)
     path = EVIDENCE_DIR / f'{pid}.json'
     path.write_text(json.dumps(json.loads(jdump(ev)), indent=1) + '\n')
     validate_evidence(path)
